@@ -179,6 +179,8 @@ class Exec:
                 return self.ev(node.body, env)
             if c == FALSE:
                 return self.ev(node.orelse, env)
+            if c[0] == "un" and c[1] == "not":  # canonical polarity, as for statements
+                return ("ife", c[2], self.ev(node.orelse, env), self.ev(node.body, env))
             return ("ife", c, self.ev(node.body, env), self.ev(node.orelse, env))
         if isinstance(node, ast.Tuple):
             return ("tuple", tuple(self._elts(node.elts, env)))
@@ -398,6 +400,8 @@ class Exec:
                 return ("map", ("bv", self.bound + 1), args[0])  # [i for i in range(..)]
         if f == ("sym", "int") and len(args) == 1 and is_const(args[0]) and type(args[0][1]) is int:
             return args[0]
+        if f == ("sym", "map") and len(args) == 2 and args[0][0] in ("sym", "attr") and not kwargs:
+            return ("map", ("call", args[0], (("bv", self.bound + 1),), ()), args[1])  # map(f, xs) is [f(x) for x in xs]
         if f == ("sym", "sum") and len(args) == 1 and args[0][0] in ("list", "tuple", "gen") and all(is_const(x) and type(x[1]) is int for x in args[0][1]) and not kwargs:
             return const(sum(x[1] for x in args[0][1]))
         if f == ("sym", "divmod") and len(args) == 2 and not kwargs:
@@ -635,6 +639,13 @@ class Exec:
             return self.map_loop(s, it, env, cont)
         if isinstance(s, (ast.Import, ast.ImportFrom)):
             return cont(env)
+        if isinstance(s, ast.Delete):
+            e2 = dict(env)
+            for t in s.targets:
+                for n in ast.walk(t):
+                    if isinstance(n, ast.Name):
+                        e2.pop(n.id, None)
+            return cont(e2)
         if isinstance(s, (ast.Break, ast.Continue)):
             if self.loop_sink is None:
                 self.fail(s, "break / continue outside a probed loop")
